@@ -649,6 +649,7 @@ def g_rotmap(rng, level=0, n_random=150):
 
 
 @gen(ST + 'zero_state')
+@gen(ST + 'one_state')
 @gen(ST + 'maximally_mixed_state')
 def g_nstate(rng, level=0, n_random=8):
     for N in range(0, n_random):
@@ -858,3 +859,12 @@ def g_indep(rng, level=0, n_random=200):
         q1 = tuple(int(x) for x in rng.choice(N, size=int(rng.integers(1, min(N, 4) + 1)), replace=False))
         q2 = tuple(int(x) for x in rng.choice(N, size=int(rng.integers(1, min(N, 4) + 1)), replace=False))
         yield {'self': ci.CliffordGate(*q1), 'other_gate': ci.CliffordGate(*q2)}
+
+
+@gen(CI + 'MeasureLayer.obs_gs_ps')
+def g_obs_gs_ps(rng, level=0, n_random=120):
+    import pyclifford.circuit as ci
+    for _ in range(n_random):
+        N = int(rng.integers(1, 6))
+        q = tuple(int(x) for x in rng.choice(N, size=int(rng.integers(1, N + 1)), replace=False))
+        yield {'self': ci.MeasureLayer(*q, N=N)}
